@@ -8,6 +8,8 @@
 include!(concat!(env!("OUT_DIR"), "/ls_mods.rs"));
 
 mod check;
+mod corpus;
+mod lsp;
 mod engines;
 mod exec;
 mod iosim;
